@@ -353,8 +353,28 @@ func sortedKeys(t *table) []string {
 	for k := range t.rows {
 		keys = append(keys, k)
 	}
-	sort.Slice(keys, func(i, j int) bool { return lessKey(t, t.rows[keys[i]], t.rows[keys[j]]) })
-	return keys
+	// rows without any version (deleted, kept as lock holders) go last in key-text order: mixing them into the
+	// value order would make the comparison inconsistent and the result depend on map iteration order
+	var live, dead []string
+	for _, k := range keys {
+		if anyVersion(t.rows[k]) != nil {
+			live = append(live, k)
+		} else {
+			dead = append(dead, k)
+		}
+	}
+	sort.SliceStable(live, func(i, j int) bool {
+		a, b := t.rows[live[i]], t.rows[live[j]]
+		if lessKey(t, a, b) {
+			return true
+		}
+		if lessKey(t, b, a) {
+			return false
+		}
+		return a.key < b.key
+	})
+	sort.Strings(dead)
+	return append(live, dead...)
 }
 
 // lessKey orders rows by primary-key value (clustered-index order), falling back to the key text.
